@@ -45,10 +45,11 @@ theorem bodyOk_drop_hi {q : UInt8} : ∀ (c : Bytes) {t : Bytes}, (∀ x ∈ c, 
     simp only [List.cons_append, bodyOk_plain _ h92, Bool.and_eq_true] at h
     exact bodyOk_drop_hi c (fun y hy => hc y (by simp [hy])) h.2
 
-theorem lexString_some {q : Int} {l l1 : Lexer} {r : Int} (hn : l.next = some (r, l1)) :
+/-- one iteration of `stringLexer` on a rune that is not eof (the eof exit — an Error item — is not
+    on the path of a well-quoted literal, so its shape is not mentioned here) -/
+theorem lexString_some {q : Int} {l l1 : Lexer} {r : Int} (hn : l.next = some (r, l1)) (hne : r ≠ eof) :
     lexString q l =
-      if r = eof then errorfAt l1 l1.start
-      else if r = 92 then
+      if r = 92 then
         match l1.next with
         | none => none
         | some (_, l2) => lexString q l2
@@ -65,7 +66,7 @@ theorem lexString_some {q : Int} {l l1 : Lexer} {r : Int} (hn : l.next = some (r
     simp only [Option.some.injEq, Prod.mk.injEq] at heq
     obtain ⟨rfl, rfl⟩ := heq
     split
-    · rfl
+    · rename_i he; exact absurd he hne
     · split
       · split <;> rename_i h2
         · simp only [h2]
@@ -104,7 +105,7 @@ theorem lexString_body {inp : Array UInt8} {st pe : Nat} {qb : UInt8} {rest : By
     have : body = [] := List.eq_nil_of_length_eq_zero (by omega)
     subst this
     have hn := next_L (s := rest) (by simpa using h) hq128 st w le its
-    rw [lexString_some hn, if_neg (by simp only [eof]; omega), if_neg (by omega), if_pos rfl]
+    rw [lexString_some hn (by simp only [eof]; omega), if_neg (by omega), if_pos rfl]
     have : p + 1 = pe := by simpa using hpe
     rw [this, he 1]
   | succ n ih =>
@@ -112,7 +113,7 @@ theorem lexString_body {inp : Array UInt8} {st pe : Nat} {qb : UInt8} {rest : By
     cases body with
     | nil =>
       have hn := next_L (s := rest) (by simpa using h) hq128 st w le its
-      rw [lexString_some hn, if_neg (by simp only [eof]; omega), if_neg (by omega), if_pos rfl]
+      rw [lexString_some hn (by simp only [eof]; omega), if_neg (by omega), if_pos rfl]
       have : p + 1 = pe := by simpa using hpe
       rw [this, he 1]
     | cons b s =>
@@ -123,14 +124,18 @@ theorem lexString_body {inp : Array UInt8} {st pe : Nat} {qb : UInt8} {rest : By
         have h0' : InpAt inp p ((b :: c) ++ s') := by rw [List.cons_append, ← hcs]; exact h0
         have := inpAt_append h0'
         simpa using this
-      rw [lexString_some hn]
+      have hre : r ≠ eof := by
+        by_cases hlt : b.toNat < 128
+        · rw [(hlo hlt).1]; simp only [eof]; omega
+        · have := hhi (by omega); simp only [eof]; omega
+      rw [lexString_some hn hre]
       by_cases hb92 : b = 92
       · -- an escape: the next rune is skipped
         subst hb92
         obtain ⟨hr, hcn⟩ := hlo (by decide)
         subst hcn
         simp only [List.nil_append] at hs
-        rw [if_neg (by rw [hr]; simp [eof]), if_pos (by rw [hr]; rfl)]
+        rw [if_pos (by rw [hr]; rfl)]
         rw [hs] at hb hl hpe h0
         cases body' with
         | nil => rw [bodyOk_esc_end] at hb; exact absurd hb (by simp)
@@ -164,7 +169,7 @@ theorem lexString_body {inp : Array UInt8} {st pe : Nat} {qb : UInt8} {rest : By
             · intro e; apply hb92; exact UInt8.toNat_inj.mp (by simp; omega)
           · have := hhi (by omega)
             refine ⟨by omega, by omega, by simp only [eof]; omega⟩
-        rw [if_neg hrq.2.2, if_neg hrq.2.1, if_neg hrq.1]
+        rw [if_neg hrq.2.1, if_neg hrq.1]
         subst hs
         rw [hs'] at htail
         refine ih body' _ _ ?_ htail (bodyOk_drop_hi c hc hb.2) ?_
